@@ -326,6 +326,7 @@ func runC17Stop(s *core.Sim, w *SW, first, top uint64, plan *[]string, obs *int6
 	var mu sync.Mutex
 	stopCalled := false
 	acked := map[uint64]bool{}
+	appended := map[uint64]bool{} // Append returned nil (whenever)
 	for h := first; h < top; h++ {
 		acked[h] = true
 	}
@@ -347,6 +348,11 @@ func runC17Stop(s *core.Sim, w *SW, first, top uint64, plan *[]string, obs *int6
 				c, cancel := context.WithTimeout(context.Background(), time.Minute)
 				err := w.St.Append(c, w.Ch.Range(r.from, r.to)...)
 				if err == nil {
+					mu.Lock()
+					for h := r.from; h <= r.to; h++ {
+						appended[h] = true
+					}
+					mu.Unlock()
 					err = w.St.Sync(c)
 				}
 				cancel()
@@ -411,7 +417,22 @@ func runC17Stop(s *core.Sim, w *SW, first, top uint64, plan *[]string, obs *int6
 		return
 	}
 	s.Probe("stop-raced-with-users")
-	if err := w.Open(); err != nil {
+	sameObject := s.Tape.Coin("restart-same-object", 1, 2)
+	if sameObject {
+		// the very same Store object is started again: what was accepted into its write queue
+		// behind the stop marker is still there and gets written now
+		var err error
+		_, fin := s.Do("start-again", opBudget, func() { err = w.St.Start(context.Background()) })
+		if !fin || err != nil {
+			s.Violate("start-error", map[string]string{"after": "stop-race", "same": "object"}, "Start of the same Store object after a Stop that raced with users: finished=%v err=%v", fin, err)
+			return
+		}
+		if err := w.Sync(); err != nil {
+			s.Violate("sync-error", nil, "Sync after restart: %v", err)
+			return
+		}
+		s.Probe("same-store-object-restarted-after-stop-race")
+	} else if err := w.Open(); err != nil {
 		s.Violate("start-error", map[string]string{"after": "stop-race"}, "Start after a Stop that raced with users: %v", err)
 		return
 	}
@@ -434,6 +455,16 @@ func runC17Stop(s *core.Sim, w *SW, first, top uint64, plan *[]string, obs *int6
 		}
 		mu.Lock()
 		defer mu.Unlock()
+		if sameObject {
+			// "every header whose Append has been followed by Sync is readable": the Sync after the restart counts
+			for _, h := range sortedHeights(appended) {
+				x := w.Ch.At(h)
+				if g, err := w.St.Get(c, x.Hash()); err != nil || !simhdr.Equal(g, x) {
+					s.Violate("synced-unreadable", map[string]string{"by": "hash", "after": "restart-of-same-object"}, "Append of %d returned nil, the same Store object was restarted and synced, but Get(hash)=%v,%v [%s; %v]", h, g, err, w.cfg(), *plan)
+					return
+				}
+			}
+		}
 		for _, h := range sortedHeights(acked) {
 			x := w.Ch.At(h)
 			g, err := w.St.Get(c, x.Hash())
